@@ -1319,6 +1319,9 @@ func (r *runner) largeCases() {
 							c.Count("executions", 1)
 							c.Count("large_evaluations", 1)
 							c.Distinct("distinct", outcome)
+							if u.lc.name == "cluster300" && u.p == (param{32, 256}) && !swap && tr == trHs && variant == "CompareDiff" {
+								c.Sample(map[string]any{"what": "large case " + u.lc.name + " over the head-sync wire adapter, df=32 thr=256", "rounds": rounds, "result": desc})
+							}
 							if kind == "removed-wrong" && hashlessSkip(tr, a, b, variant) {
 								kind += hashlessKey
 							}
